@@ -247,6 +247,26 @@ def main(prop: str, tier: str) -> int:
         run.machinery(f'MailboxSync Ideal configuration fails: {res.violated or res.error}')
         return run.finish()
 
+    if prop == 'C16':
+        # the IDLE loop itself (arm / wait / wake / diff / write) on top of MailboxSync: the safety
+        # encoding and - on a smaller instance, weak fairness on the idler - the liveness property
+        # as stated; the pinned tree's loop (deviation IdleArmAfterDiff) must FAIL the invariant,
+        # which shows the invariant is not vacuous
+        for cfg, want in (('MailboxIdle_ideal.cfg', None), ('MailboxIdle_live.cfg', None),
+                          ('MailboxIdle_asis.cfg', 'WaitingMeansCurrent')):
+            r = tlc.run_tlc('MailboxIdle.tla', cfg, workers=16, timeout=1500)
+            run.add_model(r, cfg)
+            if want is None and not r.ok:
+                run.machinery(f'{cfg} fails: {r.violated or r.error}')
+                return run.finish()
+            if want is not None and want not in (r.violated or []):
+                run.machinery(f'{cfg}: the lost wake-up of the pinned IDLE loop is not detected by '
+                              f'{want} (got {r.violated or r.error or "no violation"})')
+                return run.finish()
+        run.notes['idle_model'] = ('MailboxIdle.tla: WaitingMeansCurrent + ConvergedUids hold (Devs = {}), '
+                                   'EventuallyTold holds under weak fairness; with the pinned tree\'s '
+                                   'IdleArmAfterDiff the invariant fails as it must')
+
     traces, meta = [], []
     # 2. spec -> code
     nsim = 250 if quick else 2500
